@@ -223,6 +223,10 @@ pub struct HostLog {
     /// scheduler switches performed in concurrent pairs
     pub switches: u64,
     pub pairs: u64,
+    /// scheduling points (heap allocations, blocking waits) offered to the scheduler in concurrent groups
+    pub sched_points: u64,
+    /// (position, mask) of expansions that touched a seam (clock 1, environment 2, pid 4, disk write 8, file system 16)
+    pub touched: Vec<(usize, u32)>,
     pub raw: String,
 }
 
@@ -478,10 +482,17 @@ pub fn parse_log(out: &str) -> Result<HostLog, HarnessError> {
                 log.fs_names = unesc(f[14]);
                 saw_s = true;
             },
+            "C" if f.len() == 3 => {
+                log.touched.push((f[1].parse().map_err(|_| HarnessError("bad C".into()))?, f[2].parse().map_err(|_| HarnessError("bad C".into()))?));
+            },
             "A" => log.addrs.push(line.to_string()),
-            "K" if f.len() == 3 => {
+            "K" if f.len() == 3 || f.len() == 4 => {
                 log.pairs += 1;
                 log.switches += f[2].parse::<u64>().unwrap_or(0);
+                // (cumulative for the process)
+                if f.len() == 4 {
+                    log.sched_points = f[3].parse::<u64>().unwrap_or(0);
+                }
             },
             "" => {},
             _ => return Err(HarnessError(format!("unparseable host log line: {:?}", &line[..line.len().min(120)]))),
@@ -523,12 +534,13 @@ const ARGV_POOL: [&str; 26] = [
     "--release", "-vv",
 ];
 
-pub fn plan_env(rng: &mut Rng, feedback: &[String], dict: &[String]) -> Vec<(String, String)> {
+pub fn plan_env(rng: &mut Rng, feedback: &[String], dict: &[String], dict_values: &[String]) -> Vec<(String, String)> {
     let mut env: Vec<(String, String)> = Vec::new();
     // names from the expander's own sources (dictionary): each present with probability 1/2
     for k in dict {
         if rng.chance(1, 2) {
-            let v = if rng.chance(1, 4) { "0".to_string() } else { rng.pick(&ENV_VALUES).to_string() };
+            // (what a value is compared against is written in the sources too)
+            let v = if !dict_values.is_empty() && rng.chance(1, 3) { rng.pick(dict_values).clone() } else if rng.chance(1, 4) { "0".to_string() } else { rng.pick(&ENV_VALUES).to_string() };
             env.push((k.clone(), v));
         }
     }
@@ -544,7 +556,7 @@ pub fn plan_env(rng: &mut Rng, feedback: &[String], dict: &[String]) -> Vec<(Str
     // variables the expander was *observed* to read in earlier worlds are always varied
     for k in feedback {
         if !env.iter().any(|e| &e.0 == k) && rng.chance(3, 4) {
-            let v = if rng.chance(1, 2) { format!("{}", rng.next_u64() % 1000) } else { rng.pick(&ENV_VALUES).to_string() };
+            let v = if !dict_values.is_empty() && rng.chance(1, 3) { rng.pick(dict_values).clone() } else if rng.chance(1, 2) { format!("{}", rng.next_u64() % 1000) } else { rng.pick(&ENV_VALUES).to_string() };
             env.push((k.clone(), v));
         }
     }
@@ -602,6 +614,8 @@ pub struct PlanOpts {
     pub fs_feedback: Vec<String>,
     pub cwds: Vec<String>,
     pub max_inputs: usize,
+    /// inputs whose expansion was observed to touch a seam (with the mask of seams), most recent last
+    pub seam_pool: Vec<(Item, Class, u32)>,
     /// the quick / thorough ultra-marathon world (65536+ expansions in one process) sits at this index
     pub ultra_index: Option<u64>,
 }
@@ -780,6 +794,44 @@ pub fn plan_world(ws: u64, corpus: &Corpus, o: &PlanOpts) -> World {
         items.push(gen::generate(&mut rng, corpus, class));
         classes.push(class);
     }
+    // concurrency between *related* inputs: a shared flag or table goes wrong when two
+    // expansions take the same path with different values.  Some inputs get a sibling -- a
+    // copy with one small edit -- and concurrent groups prefer (input, its sibling).
+    let mut sibling_of: Vec<Option<u32>> = vec![None; items.len()];
+    // one concurrent world in three is *about* siblings: every input has one, and every host
+    // runs each (input, sibling) group several times under different schedules before anything else
+    let sibling_world = faults & F_CONCURRENT != 0 && !marathon && rng.chance(1, 2);
+    if faults & F_CONCURRENT != 0 && !marathon {
+        for j in 0..items.len().min(if sibling_world { 16 } else { 8 }) {
+            if items[j].raw.is_none() && (sibling_world || rng.chance(1, 2)) {
+                let sib = gen::sibling(&mut rng, &items[j]);
+                if sib.render() != items[j].render() {
+                    sibling_of[j] = Some(items.len() as u32);
+                    items.push(sib);
+                    classes.push(classes[j]);
+                    sibling_of.push(None);
+                }
+            }
+        }
+    }
+    let k = items.len();
+    // feedback: inputs that were seen to touch a seam are expanded again, under the faults of
+    // those seams, with the variables they read swept over the dictionary of values
+    let mut sweep = false;
+    if !o.seam_pool.is_empty() && !control && !marathon && rng.chance(1, 2) {
+        sweep = true;
+        let n = rng.range(1, 4).min(items.len());
+        for j in 0..n {
+            let (it, cl, mask) = &o.seam_pool[rng.below(o.seam_pool.len() as u64) as usize];
+            items[j] = it.clone();
+            classes[j] = *cl;
+            for (bit, fault) in [(1u32, F_CLOCK), (2, F_ENV), (4, F_PID), (8, F_DISK), (16, F_FS)] {
+                if mask & bit != 0 {
+                    faults |= fault;
+                }
+            }
+        }
+    }
     let texts: Vec<(u32, String)> = items.iter().enumerate().map(|(i, it)| (i as u32, it.render())).collect();
 
     let mut reference = HostCfg::reference();
@@ -802,7 +854,14 @@ pub fn plan_world(ws: u64, corpus: &Corpus, o: &PlanOpts) -> World {
             cfg.entropy_seed = 1 + rng.next_u64() % 0xFFFF_FFFF;
         }
         if f & F_ENV != 0 {
-            cfg.env = plan_env(&mut rng, &o.feedback, &corpus.dict_env);
+            cfg.env = plan_env(&mut rng, &o.feedback, &corpus.dict_env, &corpus.dict_values);
+            if sweep && !corpus.dict_values.is_empty() {
+                for name in &o.feedback {
+                    let v = rng.pick(&corpus.dict_values).clone();
+                    cfg.env.retain(|e| &e.0 != name);
+                    cfg.env.push((name.clone(), v));
+                }
+            }
             // a prefix found in the sources + the name of a type of this world ("O2O_SKIP_" + "ENTITY")
             for p in &corpus.dict_env_prefixes {
                 for it in items.iter().take(6) {
@@ -877,8 +936,16 @@ pub fn plan_world(ws: u64, corpus: &Corpus, o: &PlanOpts) -> World {
             // 1 in 12 such hosts runs a marathon: hundreds of expansions in one process
             // (counter wrap-arounds, caches that fill up or expire)
             let extra = if !marathon && rng.chance(1, 12) { rng.range(260, 700) } else { rng.range(0, k / 2 + 1) };
+            // (a history of hundreds of events repeats the *cheap* inputs: an input that takes a
+            // fifth of a second -- a 260-level nest -- sixty times over would cost more wall time
+            // than the rest of its batch together; every input is still expanded once in it)
+            let cheap: Vec<u32> = (0..k as u32).filter(|i| texts[*i as usize].1.len() <= 2500).collect();
             for _ in 0..extra {
-                order.push(rng.below(k as u64) as u32);
+                if extra >= 260 && !cheap.is_empty() {
+                    order.push(cheap[rng.below(cheap.len() as u64) as usize]);
+                } else {
+                    order.push(rng.below(k as u64) as u32);
+                }
             }
             rng.shuffle(&mut order);
         }
@@ -968,12 +1035,29 @@ pub fn plan_world(ws: u64, corpus: &Corpus, o: &PlanOpts) -> World {
             out.extend(spawns);
             out.extend(prefix);
             out.extend(order_events);
+            if sibling_world {
+                let reps = rng.range(3, 6);
+                for (a, sb) in sibling_of.iter().enumerate() {
+                    let Some(sb) = sb else { continue };
+                    for _ in 0..reps {
+                        let ta = have[rng.below(have.len() as u64) as usize];
+                        let tb = *have.iter().find(|t| **t != ta).unwrap();
+                        let (x, y) = if rng.chance(1, 2) { (a as u32, *sb) } else { (*sb, a as u32) };
+                        out.push(Event::ExpandPair { a_tid: ta, a_input: x, b_tid: tb, b_input: y, sched: rng.next_u64() >> 1, third: None });
+                    }
+                }
+            }
             while i < body.len() {
                 if i + 1 < body.len() && rng.chance(1, 3) {
                     if let (Event::Expand { input: a, .. }, Event::Expand { input: b0, .. }) = (&body[i], &body[i + 1]) {
                         // one pair in four expands the *same* input twice at once (an IDE
                         // re-expanding an item while the previous expansion is still running)
-                        let b = if rng.chance(1, 4) { a } else { b0 };
+                        // ... and an input that has a sibling is mostly paired with it
+                        let sib = sibling_of.get(*a as usize).copied().flatten();
+                        let b = match &sib {
+                            Some(sb) if rng.chance(2, 3) => sb,
+                            _ => if rng.chance(1, 4) { a } else { b0 },
+                        };
                         let ta = have[rng.below(have.len() as u64) as usize];
                         let mut tb = have[rng.below(have.len() as u64) as usize];
                         if tb == ta {
